@@ -3,6 +3,7 @@
   Property theorems ONLY.  For EVERY item size >= 1, every number of rows (including 0) and columns >= 1, every bit pattern.
 -/
 import Kapture.Lemmas.C03
+import Kapture.Gen.IoShapes
 
 namespace Kapture.C03
 
@@ -87,5 +88,14 @@ theorem locations_match_specification :
 -- non-vacuity: a 2 x 2 array of 16-bit elements
 example : toFile { item := 2, rows := 2, cols := 2, bits := [0x0102, 0xFFFE, 0, 0x8000] } = [2, 1, 0xFE, 0xFF, 0, 0, 0, 0x80] := by decide
 example : fromFile 2 2 [2, 1, 0xFE, 0xFF, 0, 0, 0, 0x80] = some { item := 2, rows := 2, cols := 2, bits := [0x0102, 0xFFFE, 0, 0x8000] } := by decide
+
+/-- the model's assumptions about array_to_file / array_from_file are what the translator reads in the source on every run
+  (Gen/IoShapes.lean): the file is opened with a truncating binary write (`'wb'`: nothing of an earlier, longer file remains),
+  the array is forced to little-endian and dumped with `tofile`, it is read back from a binary read; neither function is
+  decorated (no memoisation between a write and the next read) -/
+theorem array_io_code_is_the_model :
+    Gen.IoShapes.arrayWriteMode = "wb" ∧ Gen.IoShapes.arrayWriteByteOrder = "<" ∧ Gen.IoShapes.arrayWriteCall = "tofile" ∧
+    Gen.IoShapes.arrayReadMode = "rb" := by
+  decide
 
 end Kapture.C03
